@@ -124,7 +124,7 @@ def full_exprs(max_leaves: int = 8, *, annotation_safe: bool = False):
                 st.just("call"),
                 sub,
                 st.lists(starred, max_size=2),
-                st.lists(st.tuples(st.sampled_from(("k", "a", "maxsize")) | st.none(), sub).map(list), max_size=2),
+                st.lists(st.tuples(st.sampled_from(("k", "a", "maxsize")) | st.none(), sub).map(list), max_size=2).filter(lambda kws: len({k for k, _ in kws if k}) == len([k for k, _ in kws if k])),
             ).map(list),
             st.tuples(st.just("ifexp"), sub, sub, sub).map(list),
             st.tuples(st.just("lambda"), _lambda_params(sub), sub if annotation_safe else (sub | sub.map(lambda e: ["yield", e]) | st.just(["yield", None]) | sub.map(lambda e: ["yieldfrom", e]))).map(list),
@@ -152,6 +152,15 @@ def safe_values(max_leaves: int = 5):
     """Expressions that evaluate without error at import time (no names except builtins called on literals)."""
     ints = _consts(INT_CONSTS)
     lits = _consts()
+    types = st.sampled_from(
+        (
+            ["name", "int"],
+            ["name", "str"],
+            ["subscript", ["attr", ["name", "typing"], "List"], ["name", "int"]],
+            ["subscript", ["name", "dict"], ["tuple", [["name", "str"], ["name", "int"]]]],
+            ["call", ["name", "object"], [], []],
+        ),
+    )
 
     def extend(sub):
         hashable = lits
@@ -172,14 +181,21 @@ def safe_values(max_leaves: int = 5):
             st.tuples(st.just("listcomp"), st.just(["name", "i"]), st.just([[["name", "i"], ["call", ["name", "range"], [["const", 2]], []], [], False]])).map(list),
         )
 
-    return st.recursive(lits, extend, max_leaves=max_leaves)
+    return st.recursive(lits | lits | types, extend, max_leaves=max_leaves)
 
 
 # ============================================================================ expressions: rendering
+# rendering context: parameter names of the function whose body is being rendered (for the "param" tag)
+_CTX: dict = {"params": [], "steer": frozenset()}
+
+
 def expr_ast(t) -> ast.AST:
     tag = t[0]
     if tag == "name":
         return ast.Name(t[1], ast.Load())
+    if tag == "param":
+        names = [] if "init-param-names" in _CTX["steer"] else _CTX["params"]
+        return ast.Name(names[t[1] % len(names)] if names else "Missing", ast.Load())
     if tag == "const":
         return ast.Constant(CONSTS[t[1] % len(CONSTS)])
     if tag == "attr":
@@ -414,8 +430,8 @@ def _params(ann, default):
     return build()
 
 
-def _bodies(importable: bool, expr_leaves: int):
-    ann = full_exprs(expr_leaves, annotation_safe=importable)
+def _bodies(importable: bool, expr_leaves: int, eval_annotations: bool = False):
+    ann = safe_values(expr_leaves) if eval_annotations else full_exprs(expr_leaves, annotation_safe=importable)
     value = safe_values(expr_leaves) if importable else full_exprs(expr_leaves)
     odoc = st.none() | docstrings()
     params = _params(ann, value)
@@ -429,7 +445,15 @@ def _bodies(importable: bool, expr_leaves: int):
         func_decos = st.lists(st.integers(0, len(FUNC_DECOS) - 1).map(lambda i: ["known", i]) | value.map(lambda e: ["expr", e]), max_size=2)
         class_decos = st.lists(st.integers(0, len(CLASS_DECOS) - 1).map(lambda i: ["known", i]) | value.map(lambda e: ["expr", e]), max_size=2)
         bases = st.lists(st.integers(0, 5).map(lambda i: ["earlier", i]) | value.map(lambda e: ["expr", e]), max_size=2)
-    selfattr = st.tuples(st.sampled_from(ATTR_NAMES + ("w",)), st.none() | ann, full_exprs(expr_leaves, annotation_safe=importable), odoc).map(list)
+    # instance attributes assigned in `__init__`: half of the values mention a parameter of that `__init__`
+    pref = st.integers(0, 7).map(lambda i: ["param", i])
+    selfval = st.one_of(
+        full_exprs(expr_leaves, annotation_safe=importable),
+        pref,
+        pref.map(lambda e: ["call", ["name", "int"], [e], []]),
+        pref.map(lambda e: ["boolop", 1, [e, ["const", 17]]]),
+    )
+    selfattr = st.tuples(st.sampled_from(ATTR_NAMES + ("w",)), st.none() | ann | pref, selfval, odoc).map(list)
 
     def func(names, method: bool):
         return st.tuples(
@@ -482,13 +506,13 @@ def _bodies(importable: bool, expr_leaves: int):
 
 
 def modules(importable: bool, expr_leaves: int = 6):
-    return st.fixed_dictionaries(
-        {
-            "doc": st.none() | docstrings(),
-            "future": st.just(True) if importable else st.booleans(),
-            "body": _bodies(importable, expr_leaves),
-        },
-    )
+    def build(future, body):
+        return st.fixed_dictionaries({"doc": st.none() | docstrings(), "future": future, "body": body})
+
+    if not importable:
+        return build(st.booleans(), _bodies(False, expr_leaves))
+    # importable: annotations are arbitrary under `from __future__ import annotations`, evaluable without it
+    return st.one_of(build(st.just(True), _bodies(True, expr_leaves)), build(st.just(False), _bodies(True, expr_leaves, eval_annotations=True)))
 
 
 def packages(importable: bool | None = None, expr_leaves: int = 6, layouts=("regular", "regular", "namespace")):
@@ -649,6 +673,13 @@ class _ModRenderer:
     def func(self, indent: int, stmt, in_class: str | None) -> None:
         _, name, spec = stmt
         s = self.src
+        if in_class is not None and name == "__init__" and "init-param-names" in _CTX["steer"]:
+            # known finding init-param-names: no `__init__` parameter shares its name with a name used in expressions
+            def ren(entry):
+                return [entry[0] + "_" if entry[0] in EXPR_NAMES else entry[0], *entry[1:]]
+
+            p = spec["params"]
+            spec = {**spec, "params": {"po": [ren(e) for e in p["po"]], "pk": [ren(e) for e in p["pk"]], "va": ren(p["va"]) if p["va"] else None, "ko": [ren(e) for e in p["ko"]], "vk": ren(p["vk"]) if p["vk"] else None}}
         decos = [self._deco(d, FUNC_DECOS) for d in spec["decos"]]
         prop = spec["prop"] if in_class is not None and name != "__init__" else 0
         if name == "__init__" or prop:
@@ -678,6 +709,8 @@ class _ModRenderer:
         s.doc(indent + 1, spec["doc"], self.style)
         wrote = spec["doc"] is not None
         if in_class is not None and name == "__init__":
+            p = spec["params"]
+            _CTX["params"] = [x[0] for x in list(p["po"]) + list(p["pk"]) + ([p["va"]] if p["va"] else []) + list(p["ko"]) + ([p["vk"]] if p["vk"] else [])]
             for sa in spec["selfattrs"]:
                 self.attr(indent + 1, ["attr", sa[0], sa[1], sa[2], sa[3]], target="self." + sa[0])
                 wrote = True
@@ -798,9 +831,10 @@ class _ModRenderer:
         return None
 
 
-def render_package(pkg, root: Path, style: str | None = None, name: str = PKG) -> dict:
+def render_package(pkg, root: Path, style: str | None = None, name: str = PKG, steer=()) -> dict:
     """Write the package under `root`. Returns {"search_paths": [...], "files": {relative path: text}, "name": PKG}."""
     root = Path(root)
+    _CTX["steer"] = frozenset(steer)
     present = _present_slots(pkg)
     namespace = pkg["layout"] == "namespace"
     sp1, sp2 = root / "sp1", root / "sp2"
